@@ -216,6 +216,140 @@ def _frame_case(ctx, rng):
               f"outgoing_cemi frame {raw.hex()[:70]} != reference {expected.hex()[:70]}")
 
 
+# ---------------------------------------------------------------------------
+# the same CEMILData object secured again after fields were changed: the octets must follow the fields as they are now
+
+def _reuse_case(ctx, rng):
+    from vlib.ds_harness import group_payload, ind_from_req
+    from xknx.cemi import CEMIFrame, CEMILData, CEMIMessageCode
+    from xknx.telegram import IndividualAddress
+
+    gas = rng.sample(range(1, 0x10000), 3)
+    srcs = rng.sample(range(1, 0x10000), 3)
+    keys = {g: rng.randbytes(16) for g in gas}
+    node = Node(keys, {}, own_address=srcs[0], last_seq_sending=rng.randrange(1, 1 << 47))
+    data = CEMILData.init_from_telegram(Telegram(destination_address=GroupAddress(gas[0]), payload=group_payload(rng, 2)),
+                                        src_addr=IndividualAddress(srcs[0]))
+    changed = "nothing"
+    for _ in range(rng.randrange(3, 7)):
+        secured = node.ds.outgoing_cemi(data)
+        raw = ind_from_req(CEMIFrame(code=CEMIMessageCode.L_DATA_REQ, data=secured).to_knx())
+        apdu = bytes(data.payload.to_knx())
+        seq = int.from_bytes(raw[12:18], "big")
+        expected = ref.secure_ldata(keys[data.dst_addr.raw], apdu, scf=0x10, seq=seq, sa=data.src_addr.raw, da=data.dst_addr.raw, group=True,
+                                    tpci_octet=data.tpci.to_knx(), ctrl1=raw[2], hop_count=(raw[3] >> 4) & 7)
+        ctx.ev()
+        ctx.count("reused_cemi_data_sends")
+        ctx.distinct(("reuse", changed, raw == expected))
+        if raw != expected:
+            ctx.violation(f"reused-cemi-data-secured-with-stale-fields-after-{changed}-changed",
+                          {"changed_before_this_send": changed, "src": data.src_addr.raw, "dst": data.dst_addr.raw, "xknx": raw,
+                           "reference": expected, "keys": {str(g): k for g, k in keys.items()}},
+                          f"CEMILData secured again after its {changed} was changed: octets differ from the reference for the current fields")
+            return
+        ctx.count("reused_cemi_data_equal")
+        changed = rng.choice(("destination", "source", "payload", "tpci"))
+        if changed == "destination":
+            data.dst_addr = GroupAddress(rng.choice([g for g in gas if g != data.dst_addr.raw]))
+        elif changed == "source":
+            data.src_addr = IndividualAddress(rng.choice([a for a in srcs if a != data.src_addr.raw]))
+        elif changed == "payload":
+            data.payload = group_payload(rng, rng.choice((1, 3, 20)))
+        else:
+            data.tpci = tpci.TDataTagGroup() if isinstance(data.tpci, tpci.TDataGroup) else tpci.TDataGroup()
+
+
+# ---------------------------------------------------------------------------
+# file based secure configuration, stop(), .knxkeys replaced by a rotated-key export, start(): what is sent afterwards must be
+# the reference output for the key that is configured NOW
+
+def _rotation_case(ctx, spec):
+    import os
+    import random
+    import shutil
+    import tempfile
+
+    from vlib.ds_harness import (
+        KEYRING_PASSWORD,
+        InterfaceSession,
+        group_payload,
+        make_project,
+        sync_keyring_loading,
+        write_project_keyring,
+    )
+    from xknx.io import SecureConfig
+    from xknx.telegram import TelegramDirection
+
+    r = random.Random(spec["seed"])
+    gas = spec["gas"]
+    generations = [{g: bytes.fromhex(k) for g, k in zip(gas, ks)} for ks in spec["keys"]]
+    tmp = tempfile.mkdtemp(prefix="dsec-c19-", dir="/dev/shm" if os.path.isdir("/dev/shm") else None)
+    path = os.path.join(tmp, "project.knxkeys")
+    sent = []  # (phase, apdu, index into s.out)
+
+    try:
+        with sync_keyring_loading():
+            write_project_keyring(make_project(generations[0], {0x1234: 0}), r, path)
+            s = InterfaceSession(spec["transport"], SecureConfig(knxkeys_file_path=path, knxkeys_password=KEYRING_PASSWORD))
+
+            async def main():
+                for phase in range(len(generations)):
+                    if phase:
+                        await s.xknx.stop()
+                        write_project_keyring(make_project(generations[phase], {0x1234: 0}), r, path)
+                        ctx.count("restarts_with_rotated_key_file")
+                    await s.xknx.start()
+                    for _ in range(spec["nsend"]):
+                        payload = group_payload(r, r.choice((1, 2, 5, 20)))
+                        before = len(s.out)
+                        await s.xknx.telegrams.put(Telegram(destination_address=GroupAddress(r.choice(gas)), payload=payload,
+                                                            direction=TelegramDirection.OUTGOING))
+                        await s.settle(0.1)
+                        if len(s.out) == before + 1:
+                            sent.append((phase, bytes(payload.to_knx()), before))
+                await s.xknx.stop()
+
+            try:
+                s.run(main())
+            except Exception as exc:  # noqa: BLE001
+                ctx.inconclusive(f"rotation case did not finish: {type(exc).__name__}: {exc}")
+                return
+            finally:
+                s.close()
+    finally:
+        shutil.rmtree(tmp, ignore_errors=True)
+    ctx.count("rotation_cases")
+    for phase, apdu, idx in sent:
+        raw = s.out[idx]
+        ctx.ev()
+        da = int.from_bytes(raw[6:8], "big")
+        sa = int.from_bytes(raw[4:6], "big")
+
+        def reference(generation):
+            return ref.secure_ldata(generations[generation][da], apdu, scf=0x10, seq=int.from_bytes(raw[12:18], "big"), sa=sa, da=da,
+                                    group=True, ctrl1=raw[2], hop_count=(raw[3] >> 4) & 7, message_code=0x11)
+
+        ok = len(raw) > 18 and raw == reference(phase)
+        ctx.distinct(("rotation", spec["transport"], phase, ok))
+        if ok:
+            ctx.count("rotation_frames_equal_reference")
+            if phase:
+                ctx.count("rotation_frames_after_restart_equal_reference_for_new_key")
+            continue
+        stale = [g for g in range(phase) if len(raw) > 18 and raw == reference(g)]
+        ctx.violation("outgoing-frame-after-restart-secured-with-replaced-key" if stale else "outgoing-frame-differs-from-reference-for-configured-key",
+                      {"spec": spec, "phase": phase, "xknx": raw, "reference_for_configured_key": reference(phase) if len(raw) > 18 else None,
+                       "equals_reference_for_key_generation": stale},
+                      f"{spec['transport']} phase {phase}: frame handed to the tunnel is not the reference output for the key configured now"
+                      + (f" (it is for replaced key generation {stale[0]})" if stale else ""))
+
+
+def _rotation_spec(rng, i):
+    gas = rng.sample(range(1, 0x10000), rng.choice((1, 2)))
+    return {"transport": ("tcp", "udp")[i % 2], "gas": gas, "nsend": 2 + i % 2,
+            "keys": [[rng.randbytes(16).hex() for _ in gas] for _ in range(2 + (i % 3 == 2))], "seed": rng.randrange(1 << 30)}
+
+
 def _spec(rng, length, alg, scfs, tp):
     tname, t = tp
     choices = [raw for raw, _ in scfs if ref.scf_algorithm(raw) == alg]
@@ -271,6 +405,18 @@ def run(ctx):
         for i in range(ctx.scale(1000, 100000)):
             if ctx.mine(i):
                 _frame_case(ctx, rng)
+        for i in range(ctx.scale(300, 30000)):
+            if ctx.mine(i):
+                _reuse_case(ctx, rng)
+            else:
+                rng.random()
+    ctx.require("reused_cemi_data_equal", "rotation_cases", "restarts_with_rotated_key_file",
+                "rotation_frames_after_restart_equal_reference_for_new_key")
+    for i in range(ctx.scale(8, 320)):
+        spec = _rotation_spec(rng, i)
+        if ctx.mine(i):
+            with observing_management():
+                _rotation_case(ctx, spec)
 
 
 def replay(ctx, witness):
@@ -278,7 +424,10 @@ def replay(ctx, witness):
     if fails:
         ctx.inconclusive("reference CCM fails its specification vectors")
         return
-    if "spec" in witness:
+    if "gas" in witness.get("spec", {}):
+        with observing_management():
+            _rotation_case(ctx, witness["spec"])
+    elif "spec" in witness:
         _case(ctx, witness["spec"])
     ctx.distinct("replay")
     ctx.distinct("replay2")
